@@ -659,8 +659,8 @@ INSTANCES = {
     ],
     "thorough": [
         ("one save, 1..4 fields, every single fault", dict(maxn=4, rounds=1, faults=1)),
-        ("two saves in a row, 1..2 fields", dict(maxn=2, rounds=2, faults=1)),
-        ("one save, 1..3 fields, every pair of faults", dict(maxn=3, rounds=1, faults=2)),
+        ("two saves in a row, 1..2 fields of 5 kinds, 3 formats", dict(maxn=2, rounds=2, faults=1, kinds="MCKinds2", formats="MCFormats2")),
+        ("one save, 1..3 fields of 5 kinds, every pair of faults", dict(maxn=3, rounds=1, faults=2, kinds="MCKinds2")),
     ],
 }
 
@@ -811,6 +811,11 @@ def run(tier, seed):
         if k == 0 and cases:
             pick = [c for c in cases if seq(c["rounds"])[0]["out"] == "raised" and len(seq(c["rounds"])[0]["log"]) > 3]
             samples.append({"spec_to_code_case": (pick or cases)[len(pick or cases) // 2]})
+
+    # vacuity: every kind of failing step and both outcomes must have been exercised
+    missing = [k for k in ("Resolve", "E", "K", "G", "D") if not first_fault.get(k)] + [k for k in ("ok", "raised") if not by_out.get(k)]
+    if missing and not out.violations:
+        raise RuntimeError("vacuous run: no behaviour ending at %s" % missing)
 
     # (c) code -> spec: random driver on the real library, validated by TLC
     n_traces = 600 if tier == "quick" else 6000
